@@ -153,11 +153,20 @@ def _detect_compressor(fileobj):
     if first_bytes.startswith(_ZFILE_PREFIX):
         return "compat"
     else:
+        prefixless = None
         for name, compressor in _COMPRESSORS.items():
-            # A compressor registered without a magic number (prefix b"")
-            # cannot be recognised from the content of a file.
-            if compressor.prefix and first_bytes.startswith(compressor.prefix):
+            if not compressor.prefix:
+                # A compressor registered without a magic number (prefix
+                # b"") cannot be recognised from the content of a file: it
+                # is only a last resort, see below.
+                if prefixless is None:
+                    prefixless = name
+            elif first_bytes.startswith(compressor.prefix):
                 return name
+        if prefixless is not None and not first_bytes.startswith(b"\x80"):
+            # No magic number matched and the content is not a pickle
+            # (protocol >= 2) either.
+            return prefixless
 
     return "not-compressed"
 
